@@ -1,7 +1,9 @@
 """C09 - result quantifiers enforce exactly the stated solution count.
 
 IR: {"n": satisfying elements, "extra": non-satisfying elements, "shape": "entity"|"set_of"|"two"|"match",
-     "q": ["an"] | ["the"] | ["exactly",k] | ["atleast",k] | ["atmost",k] | ["range",lo,hi]}
+     "q": ["an"] | ["the"] | ["exactly",k] | ["atleast",k] | ["atmost",k] | ["range",lo,hi],
+     "nested": optional int j - after j results of the evaluation a second evaluation of the same query object is
+               run to its end, then the first one is continued}
 Oracle: arithmetic on n.
 """
 from __future__ import annotations
@@ -41,7 +43,8 @@ class C09(Check):
         "Exhaustive grid: n in 0..7 solutions x every Exactly/AtLeast/AtMost/Range with bounds in -1..8 "
         "x {entity, set_of, two-variable set_of, entity_matching(...)(...) description} plus the(...) for every n; then seeded Hypothesis cases "
         "with n up to 60. The number of solutions is produced by a real query (x.a < n over a larger "
-        "domain), results are pulled one by one. Non-trivial: a bound is within 1 of n (off-by-one "
+        "domain), results are pulled one by one; in part of the cases a second evaluation of the same query object runs to its end "
+        "in the middle of the first one and must behave like an evaluation on its own. Non-trivial: a bound is within 1 of n (off-by-one "
         "neighbourhood) or the constraint is rejected at construction. Distinct = distinct IR."
     )
     assumptions = [
@@ -71,6 +74,8 @@ class C09(Check):
                 for k in range(-1, 9):
                     for tag in ("exactly", "atleast", "atmost"):
                         yield dict(n=n, extra=2, shape=shape, q=[tag, k])
+                        if shape == "entity" and n >= 1 and abs(k - n) <= 1:
+                            yield dict(n=n, extra=2, shape=shape, q=[tag, k], nested=0)
                 if shape == "entity" or n in (0, 1, 2, 5):
                     for lo in range(-1, 9):
                         for hi in range(-1, 9):
@@ -90,7 +95,10 @@ class C09(Check):
                 st.tuples(st.sampled_from(["exactly", "atleast", "atmost"]), b).map(list),
                 st.tuples(st.just("range"), b, b).map(list),
             ))
-            return dict(n=n, extra=draw(st.integers(0, 5)), shape=draw(st.sampled_from(["entity", "set_of", "two", "match"])), q=q)
+            out = dict(n=n, extra=draw(st.integers(0, 5)), shape=draw(st.sampled_from(["entity", "set_of", "two", "match"])), q=q)
+            if n >= 1 and q[0] != "the" and draw(st.sampled_from([0, 0, 1])):
+                out["nested"] = draw(st.integers(0, min(n - 1, 3)))
+            return out
 
         return ir()
 
@@ -173,16 +181,27 @@ class C09(Check):
 
         # ---- evaluation
         got, raised = [], None
+        inner = None  # (results, raised) of a second evaluation of the same query object run in the middle of the first
+        nested_at = ir.get("nested")
         try:
             if q[0] == "the":
                 got.append(row(query.evaluate()))
             else:
                 for r in query.evaluate():
                     got.append(row(r))
+                    if nested_at is not None and len(got) == nested_at + 1 and inner is None:
+                        inner = ([], None)
+                        try:
+                            for r2 in query.evaluate():
+                                inner[0].append(row(r2))
+                        except F.QuantificationNotSatisfiedError as exc2:
+                            inner = (inner[0], exc2)
         except F.QuantificationNotSatisfiedError as exc:
             raised = exc
         except Exception as exc:
             return crash(exc, f"evaluating {ir}", classes=classes)
+        if inner is not None:
+            out.classes.append("second_evaluation_inside_the_first")
 
         def bad(kind, msg):
             return fail(kind, f"{ir}: {msg}; yielded={len(got)} raised={type(raised).__name__ if raised else None}",
@@ -197,18 +216,37 @@ class C09(Check):
             if not isinstance(raised, want):
                 return bad("missing_greater_error", f"n={n} > upper={hi} must raise {want.__name__}")
             out.classes.append("too_many")
-            return out
+            return self.judge_inner(ir, inner, expected, lo, hi, n, out, F)
         if n < lo:
             want = F.NoSolutionFound if q[0] == "the" else F.LessThanExpectedNumberOfSolutions
             if not isinstance(raised, want):
                 return bad("missing_less_error", f"n={n} < lower={lo} must raise {want.__name__}")
             out.classes.append("too_few")
-            return out
+            return self.judge_inner(ir, inner, expected, lo, hi, n, out, F)
         if raised is not None:
             return bad("spurious_error", f"constraint satisfied by n={n} but an error was raised")
         if set(got) != expected:
             return bad("wrong_results", f"constraint satisfied: expected all {n} solutions")
         out.classes.append("satisfied")
+        return self.judge_inner(ir, inner, expected, lo, hi, n, out, F)
+
+    @staticmethod
+    def judge_inner(ir, inner, expected, lo, hi, n, out, F):
+        """the evaluation that ran inside the first one must behave like an evaluation on its own"""
+        if inner is None:
+            return out
+        got, raised = inner
+        ok = len(set(got)) == len(got) and set(got) <= expected
+        if hi is not None and n > hi:
+            ok = ok and len(got) <= hi and isinstance(raised, F.GreaterThanExpectedNumberOfSolutions)
+        elif n < lo:
+            ok = ok and isinstance(raised, F.LessThanExpectedNumberOfSolutions)
+        else:
+            ok = ok and raised is None and set(got) == expected
+        if not ok:
+            return fail("nested_evaluation_differs", f"{ir}: the evaluation started inside another evaluation of the same query yielded "
+                                                     f"{len(got)} results and raised {type(raised).__name__ if raised else None}",
+                        classes=out.classes, nontrivial=out.nontrivial)
         return out
 
 
